@@ -56,6 +56,25 @@ def gen_case(r, info=None):
                 if k == 0: ev.append(("up", a, r.below(256), 0xA0, [r.below(256)]))
                 elif k == 1: ev.append(("up", a, r.below(256), 0xA1, [r.below(256)]))
                 else: ev.append(("up", a, r.below(256), 0xA2, [8 * r.below(8), 16] + [r.below(256), r.below(256)]))
+    # re-login without a loss: a connected board is announced again at another address (no MSG_NODE_LOST in between); its reports
+    # now come from the new address; optionally another configured board then logs in at the old address and reports too
+    if where and r.chance(1, 3):
+        i = r.choice(sorted(where)); a = where[i]
+        if len(a) == 1 and not any(w[:1] == a and w != a for w in where.values()):
+            free = [x for x in range(1, 10) if (x,) not in where.values()]
+            if free:
+                nl = r.choice(free); b = (nl,)
+                ev.append(("up", (), r.below(256), 0x8D, [r.below(256), nl] + BOARDS[i][1])); where[i] = b
+                for _ in range(r.range(1, 3)):
+                    k = r.below(4)
+                    if k == 0: ev.append(("up", b, r.below(256), 0xA0, [r.below(256)]))
+                    elif k == 1: ev.append(("up", b, r.below(256), 0xA1, [r.below(256)]))
+                    elif k == 2: ev.append(("up", b, r.below(256), 0xA2, [8 * r.below(8), 16] + [r.below(256), r.below(256)]))
+                    else: ev.append(("up", b, r.below(256), 0xAC, [r.below(256) for _ in range(5)]))
+                others = [j for j in range(4) if j not in where]
+                if others and r.chance(1, 2):
+                    j = r.choice(others); ev.append(("up", (), r.below(256), 0x8D, [r.below(256), a[0]] + BOARDS[j][1])); where[j] = a
+                for _ in range(r.range(1, 3)): ev.append(("up", a, r.below(256), r.choice([0xA0, 0xA1]), [r.below(256)]))
     # lift every stall at the end
     for n in {e[1] for e in ev if e[0] == "up" and e[3] == 0x8E}: ev.append(("up", n, 0, 0x8E, [0]))
     return ev, where
